@@ -293,7 +293,7 @@ var StructTypes = []reflect.Type{
 	T(CN1{}), T(CN2{}), T(NMapHolder{}),
 	T(ManyF{}), T(ManyL{}),
 	T(Node{}), T(FNode{}), T(Ping{}), T(Pong{}), T(ENode{}), T(DeepNil{}),
-	T(MapAndLists{}), T(Wrap{}), T(WrapList{}), T(PtrTime{}), T(Named{}), T(SelfAny{}), T(SelfAnyList{}), T(PtrConts{}), T(MutA{}), T(MutB{}), T(MpKeyStruct{}), T(MutGraph{}), T(NonASCII{}), T(RecConts{}), T(AmpTop{}), T(AmpN{}), T(FloatMix{}), T(Forest{}), T(CaseTwins{}),
+	T(MapAndLists{}), T(Wrap{}), T(WrapList{}), T(PtrTime{}), T(Named{}), T(SelfAny{}), T(SelfAnyList{}), T(PtrConts{}), T(MutA{}), T(MutB{}), T(MpKeyStruct{}), T(MutGraph{}), T(NonASCII{}), T(RecConts{}), T(AmpTop{}), T(AmpN{}), T(FloatMix{}), T(Forest{}), T(CaseTwins{}), T(BaseEnt{}), T(PlainEnt{}), T(AccountEnt{}), T(PtrBaseEnt{}), T(Ents{}),
 }
 
 // TypeByName finds a zoo struct type.
@@ -586,6 +586,38 @@ type RecConts struct {
 	T Tree
 	J JMap
 	N int32
+}
+
+// BaseEnt / PlainEnt / AccountEnt / PtrBaseEnt: a struct with a wire name of its own embedded in structs that
+// declare none (they keep their Go names: the promoted method speaks for the embedded type) or their own.
+type BaseEnt struct{ ID int32 }
+
+func (BaseEnt) HessianCodecName() string { return "com.example.BaseEnt" }
+
+type PlainEnt struct {
+	BaseEnt
+	M int32
+}
+
+type AccountEnt struct {
+	BaseEnt
+	N string
+}
+
+func (AccountEnt) HessianCodecName() string { return "com.example.AccountEnt" }
+
+type PtrBaseEnt struct {
+	*BaseEnt
+	K int32
+}
+
+// Ents holds all of them side by side.
+type Ents struct {
+	B  BaseEnt
+	P  *PlainEnt
+	A  AccountEnt
+	PB *PtrBaseEnt
+	L  []interface{}
 }
 
 // CaseTwins: exported fields that differ only in the case of a later letter (their wire names differ too:
